@@ -4,6 +4,7 @@ CONSTANTS
   AN = {"x"}
   RN = {"r"}
   MaxTypes = 2
+  Rich = TRUE
 VIEW View
 INVARIANTS EmitState
 CHECK_DEADLOCK FALSE
